@@ -42,6 +42,9 @@ def check(run):
     # every container the generic code can be instantiated with hands out its elements in logical order
     from common import dep_backends as _dep_backends
     _dep_backends(run)
+    # the floor below which a variance counts as zero
+    import casrules as _cr
+    _cr.check_eps(run, run.facts('base'))
     return run.finish(
         'other',
         'Structure of the aggregation definitions: the fold helpers skip exactly the nulls and '
